@@ -361,7 +361,12 @@ WalkStep(W, r, x) ==
                     !.ev = IF IsF(r) \/ ids # {} THEN Append(@, EvE(ref, n, ids)) ELSE @]
 RECURSIVE ComposeWalk(_, _, _, _)
 ComposeWalk(W, r, z, i) == IF i > Len(z) \/ W.stop THEN W ELSE ComposeWalk(WalkStep(W, r, z[i]), r, z, i + 1)
-Compose(S, r, n, ids) == Fl(S, "x")
+Compose(S, r, n, ids) ==
+  LET z == ZoneEntries(S)
+      W == ComposeWalk([S |-> S, rem |-> n, remi |-> ids, vis |-> {}, ev |-> <<>>, trap |-> FALSE, stop |-> FALSE], r, z, 1)
+  IN IF W.trap THEN Fl(S, "Trap")
+     ELSE IF (IsF(r) /\ n = 0) \/ (~IsF(r) /\ ids = {}) THEN Fl(S, "EmptyProofNotAllowed")
+     ELSE [W.S EXCEPT !.np = Append(@, [live |-> TRUE, p |-> [res |-> r, amt |-> n, ids |-> ids, ev |-> W.ev]])]
 SumQ(S, r, refs) == SetSum([x \in refs |-> QuotaAmt(S, r, x)], refs)
 AzProofOfAmount(S, r, n) ==
   IF n % Unit # 0 THEN Fl(S, "InvalidAmount")
@@ -510,15 +515,17 @@ Failed(ins, e) ==     \* the transaction fails: everything is reverted
   /\ status' = "fail" /\ nins' = 0
   /\ last' = [ins |-> ins, ok |-> FALSE, err |-> e]
 
-Step(ins) ==
+\* R = the transaction state after the instruction (Exec(Cur, ins)); the per-kind actions below pass the result of
+\* their own operator, so that every action carries only its own definition (TLC's coverage copies the tree per action)
+StepR(ins, R) ==
   /\ IF status = "run" THEN nins < MaxInstr ELSE ntx < MaxTx
-  /\ LET R == Exec(Cur, ins)
-     IN IF R.ok
+  /\    IF R.ok
         THEN /\ SetLedger(LedgerOf(R)) /\ SetTx(R) /\ UNCHANGED <<pre, mintCount>>
              /\ status' = "run" /\ nins' = nins + 1
              /\ last' = [ins |-> ins, ok |-> TRUE, err |-> ""]
         ELSE Failed(ins, R.err)
   /\ ntx' = IF status = "run" THEN ntx ELSE ntx + 1
+Step(ins) == StepR(ins, Exec(Cur, ins))
 
 EndTx ==
   /\ status = "run"
@@ -531,44 +538,44 @@ EndTx ==
         ELSE Failed(EndIns, R.err)
   /\ UNCHANGED ntx
 
-IWithdraw == "Withdraw" \in Ops /\ \E ins \in CandOf(Cur, "Withdraw") : Step(ins)
-IWithdrawNF == "WithdrawNF" \in Ops /\ \E ins \in CandOf(Cur, "WithdrawNF") : Step(ins)
-ITakeFromWorktop == "TakeFromWorktop" \in Ops /\ \E ins \in CandOf(Cur, "TakeFromWorktop") : Step(ins)
-ITakeNF == "TakeNF" \in Ops /\ \E ins \in CandOf(Cur, "TakeNF") : Step(ins)
-ITakeAll == "TakeAll" \in Ops /\ \E ins \in CandOf(Cur, "TakeAll") : Step(ins)
-IReturnToWorktop == "ReturnToWorktop" \in Ops /\ \E ins \in CandOf(Cur, "ReturnToWorktop") : Step(ins)
-IDeposit == "Deposit" \in Ops /\ \E ins \in CandOf(Cur, "Deposit") : Step(ins)
-IDepositBatch == "DepositBatch" \in Ops /\ \E ins \in CandOf(Cur, "DepositBatch") : Step(ins)
-IMint == "Mint" \in Ops /\ \E ins \in CandOf(Cur, "Mint") : Step(ins)
-IMintNF == "MintNF" \in Ops /\ \E ins \in CandOf(Cur, "MintNF") : Step(ins)
-IMintNFWrongType == "MintNFWrongType" \in Ops /\ \E ins \in CandOf(Cur, "MintNFWrongType") : Step(ins)
-IMintRuid == "MintRuid" \in Ops /\ \E ins \in CandOf(Cur, "MintRuid") : Step(ins)
-IBurn == "Burn" \in Ops /\ \E ins \in CandOf(Cur, "Burn") : Step(ins)
-IBurnInAccount == "BurnInAccount" \in Ops /\ \E ins \in CandOf(Cur, "BurnInAccount") : Step(ins)
-IBurnNFInAccount == "BurnNFInAccount" \in Ops /\ \E ins \in CandOf(Cur, "BurnNFInAccount") : Step(ins)
-IRecall == "Recall" \in Ops /\ \E ins \in CandOf(Cur, "Recall") : Step(ins)
-IRecallNF == "RecallNF" \in Ops /\ \E ins \in CandOf(Cur, "RecallNF") : Step(ins)
-IProofOfAmount == "ProofOfAmount" \in Ops /\ \E ins \in CandOf(Cur, "ProofOfAmount") : Step(ins)
-IProofOfNF == "ProofOfNF" \in Ops /\ \E ins \in CandOf(Cur, "ProofOfNF") : Step(ins)
-IBucketProofOfAmount == "BucketProofOfAmount" \in Ops /\ \E ins \in CandOf(Cur, "BucketProofOfAmount") : Step(ins)
-IBucketProofOfNF == "BucketProofOfNF" \in Ops /\ \E ins \in CandOf(Cur, "BucketProofOfNF") : Step(ins)
-IBucketProofOfAll == "BucketProofOfAll" \in Ops /\ \E ins \in CandOf(Cur, "BucketProofOfAll") : Step(ins)
-IPopFromAuthZone == "PopFromAuthZone" \in Ops /\ \E ins \in CandOf(Cur, "PopFromAuthZone") : Step(ins)
-IPushToAuthZone == "PushToAuthZone" \in Ops /\ \E ins \in CandOf(Cur, "PushToAuthZone") : Step(ins)
-ICloneProof == "CloneProof" \in Ops /\ \E ins \in CandOf(Cur, "CloneProof") : Step(ins)
-IDropProof == "DropProof" \in Ops /\ \E ins \in CandOf(Cur, "DropProof") : Step(ins)
-IDropAllProofs == "DropAllProofs" \in Ops /\ \E ins \in CandOf(Cur, "DropAllProofs") : Step(ins)
-IDropNamedProofs == "DropNamedProofs" \in Ops /\ \E ins \in CandOf(Cur, "DropNamedProofs") : Step(ins)
-IDropAuthZoneProofs == "DropAuthZoneProofs" \in Ops /\ \E ins \in CandOf(Cur, "DropAuthZoneProofs") : Step(ins)
-IDropAuthZoneRegularProofs == "DropAuthZoneRegularProofs" \in Ops /\ \E ins \in CandOf(Cur, "DropAuthZoneRegularProofs") : Step(ins)
-IDropAuthZoneSignatureProofs == "DropAuthZoneSignatureProofs" \in Ops /\ \E ins \in CandOf(Cur, "DropAuthZoneSignatureProofs") : Step(ins)
-IAzProofOfAmount == "AzProofOfAmount" \in Ops /\ \E ins \in CandOf(Cur, "AzProofOfAmount") : Step(ins)
-IAzProofOfNF == "AzProofOfNF" \in Ops /\ \E ins \in CandOf(Cur, "AzProofOfNF") : Step(ins)
-IAzProofOfAll == "AzProofOfAll" \in Ops /\ \E ins \in CandOf(Cur, "AzProofOfAll") : Step(ins)
-IAssertContains == "AssertContains" \in Ops /\ \E ins \in CandOf(Cur, "AssertContains") : Step(ins)
-IAssertAny == "AssertAny" \in Ops /\ \E ins \in CandOf(Cur, "AssertAny") : Step(ins)
-IAssertNF == "AssertNF" \in Ops /\ \E ins \in CandOf(Cur, "AssertNF") : Step(ins)
-IUpdateNFData == "UpdateNFData" \in Ops /\ \E ins \in CandOf(Cur, "UpdateNFData") : Step(ins)
+IWithdraw == "Withdraw" \in Ops /\ \E ins \in CandOf(Cur, "Withdraw") : StepR(ins, Withdraw(Cur, ins.a, ins.r, ins.n))
+IWithdrawNF == "WithdrawNF" \in Ops /\ \E ins \in CandOf(Cur, "WithdrawNF") : StepR(ins, WithdrawNF(Cur, ins.a, ins.r, ins.ids))
+ITakeFromWorktop == "TakeFromWorktop" \in Ops /\ \E ins \in CandOf(Cur, "TakeFromWorktop") : StepR(ins, TakeFromWorktop(Cur, ins.r, ins.n))
+ITakeNF == "TakeNF" \in Ops /\ \E ins \in CandOf(Cur, "TakeNF") : StepR(ins, TakeNF(Cur, ins.r, ins.ids))
+ITakeAll == "TakeAll" \in Ops /\ \E ins \in CandOf(Cur, "TakeAll") : StepR(ins, TakeAll(Cur, ins.r))
+IReturnToWorktop == "ReturnToWorktop" \in Ops /\ \E ins \in CandOf(Cur, "ReturnToWorktop") : StepR(ins, ReturnToWorktop(Cur, ins.k))
+IDeposit == "Deposit" \in Ops /\ \E ins \in CandOf(Cur, "Deposit") : StepR(ins, Deposit(Cur, ins.a, ins.k))
+IDepositBatch == "DepositBatch" \in Ops /\ \E ins \in CandOf(Cur, "DepositBatch") : StepR(ins, DepositBatch(Cur, ins.a))
+IMint == "Mint" \in Ops /\ \E ins \in CandOf(Cur, "Mint") : StepR(ins, Mint(Cur, ins.r, ins.n))
+IMintNF == "MintNF" \in Ops /\ \E ins \in CandOf(Cur, "MintNF") : StepR(ins, MintNF(Cur, ins.r, ins.ids))
+IMintNFWrongType == "MintNFWrongType" \in Ops /\ \E ins \in CandOf(Cur, "MintNFWrongType") : StepR(ins, MintNFWrongType(Cur, ins.r))
+IMintRuid == "MintRuid" \in Ops /\ \E ins \in CandOf(Cur, "MintRuid") : StepR(ins, MintRuid(Cur, ins.r, ins.n))
+IBurn == "Burn" \in Ops /\ \E ins \in CandOf(Cur, "Burn") : StepR(ins, Burn(Cur, ins.k))
+IBurnInAccount == "BurnInAccount" \in Ops /\ \E ins \in CandOf(Cur, "BurnInAccount") : StepR(ins, BurnInAccount(Cur, ins.a, ins.r, ins.n))
+IBurnNFInAccount == "BurnNFInAccount" \in Ops /\ \E ins \in CandOf(Cur, "BurnNFInAccount") : StepR(ins, BurnNFInAccount(Cur, ins.a, ins.r, ins.ids))
+IRecall == "Recall" \in Ops /\ \E ins \in CandOf(Cur, "Recall") : StepR(ins, Recall(Cur, ins.a, ins.r, ins.n))
+IRecallNF == "RecallNF" \in Ops /\ \E ins \in CandOf(Cur, "RecallNF") : StepR(ins, RecallNF(Cur, ins.a, ins.r, ins.ids))
+IProofOfAmount == "ProofOfAmount" \in Ops /\ \E ins \in CandOf(Cur, "ProofOfAmount") : StepR(ins, ProofFromAccount(Cur, ins.a, ins.r, ins.n, {}))
+IProofOfNF == "ProofOfNF" \in Ops /\ \E ins \in CandOf(Cur, "ProofOfNF") : StepR(ins, ProofFromAccount(Cur, ins.a, ins.r, 0, ins.ids))
+IBucketProofOfAmount == "BucketProofOfAmount" \in Ops /\ \E ins \in CandOf(Cur, "BucketProofOfAmount") : StepR(ins, ProofFromBucket(Cur, ins.k, ins.n, {}))
+IBucketProofOfNF == "BucketProofOfNF" \in Ops /\ \E ins \in CandOf(Cur, "BucketProofOfNF") : StepR(ins, ProofFromBucket(Cur, ins.k, 0, ins.ids))
+IBucketProofOfAll == "BucketProofOfAll" \in Ops /\ \E ins \in CandOf(Cur, "BucketProofOfAll") : StepR(ins, ProofFromBucketAll(Cur, ins.k))
+IPopFromAuthZone == "PopFromAuthZone" \in Ops /\ \E ins \in CandOf(Cur, "PopFromAuthZone") : StepR(ins, PopFromAuthZone(Cur))
+IPushToAuthZone == "PushToAuthZone" \in Ops /\ \E ins \in CandOf(Cur, "PushToAuthZone") : StepR(ins, PushToAuthZone(Cur, ins.k))
+ICloneProof == "CloneProof" \in Ops /\ \E ins \in CandOf(Cur, "CloneProof") : StepR(ins, CloneProof(Cur, ins.k))
+IDropProof == "DropProof" \in Ops /\ \E ins \in CandOf(Cur, "DropProof") : StepR(ins, DropProof(Cur, ins.k))
+IDropAllProofs == "DropAllProofs" \in Ops /\ \E ins \in CandOf(Cur, "DropAllProofs") : StepR(ins, [DropAz(DropNamed(Cur, 1)) EXCEPT !.sigs = FALSE])
+IDropNamedProofs == "DropNamedProofs" \in Ops /\ \E ins \in CandOf(Cur, "DropNamedProofs") : StepR(ins, DropNamed(Cur, 1))
+IDropAuthZoneProofs == "DropAuthZoneProofs" \in Ops /\ \E ins \in CandOf(Cur, "DropAuthZoneProofs") : StepR(ins, [DropAz(Cur) EXCEPT !.sigs = FALSE])
+IDropAuthZoneRegularProofs == "DropAuthZoneRegularProofs" \in Ops /\ \E ins \in CandOf(Cur, "DropAuthZoneRegularProofs") : StepR(ins, DropAz(Cur))
+IDropAuthZoneSignatureProofs == "DropAuthZoneSignatureProofs" \in Ops /\ \E ins \in CandOf(Cur, "DropAuthZoneSignatureProofs") : StepR(ins, [Cur EXCEPT !.sigs = FALSE])
+IAzProofOfAmount == "AzProofOfAmount" \in Ops /\ \E ins \in CandOf(Cur, "AzProofOfAmount") : StepR(ins, AzProofOfAmount(Cur, ins.r, ins.n))
+IAzProofOfNF == "AzProofOfNF" \in Ops /\ \E ins \in CandOf(Cur, "AzProofOfNF") : StepR(ins, AzProofOfNF(Cur, ins.r, ins.ids))
+IAzProofOfAll == "AzProofOfAll" \in Ops /\ \E ins \in CandOf(Cur, "AzProofOfAll") : StepR(ins, AzProofOfAll(Cur, ins.r))
+IAssertContains == "AssertContains" \in Ops /\ \E ins \in CandOf(Cur, "AssertContains") : StepR(ins, AssertContains(Cur, ins.r, ins.n))
+IAssertAny == "AssertAny" \in Ops /\ \E ins \in CandOf(Cur, "AssertAny") : StepR(ins, AssertAny(Cur, ins.r))
+IAssertNF == "AssertNF" \in Ops /\ \E ins \in CandOf(Cur, "AssertNF") : StepR(ins, AssertNF(Cur, ins.r, ins.ids))
+IUpdateNFData == "UpdateNFData" \in Ops /\ \E ins \in CandOf(Cur, "UpdateNFData") : StepR(ins, UpdateNFData(Cur, ins.r, ins.k, ins.f, ins.v))
 Next == \/ EndTx
         \/ IWithdraw
         \/ IWithdrawNF
